@@ -271,7 +271,11 @@ Inductive stmt :=
 | SLet (x : string) (e : expr)
 | SSet (x : string) (e : expr)
 | SDo (f : string) (args : list expr)
-| SWhile (c : expr) (body : list stmt).
+| SWhile (c : expr) (body : list stmt)
+| SIf (c : expr) (th el : list stmt)
+| SIfAsk (negate : bool) (f : string) (args : list expr) (th el : list stmt).
+   (* `if f(args) {..} else {..}` / `if !f(args) ..` where f is a caller-supplied closure: its answer
+      comes from a script (None: the closure panics); the call is recorded like an effect *)
 
 Definition effect : Type := string * list val.
 
@@ -290,32 +294,62 @@ Fixpoint eval_args (ft : fntab) (en : env) (es : list expr) : option (list val) 
               end
   end.
 
-Fixpoint exec (ft : fntab) (fuel : nat) (en : env) (tr : list effect) (ss : list stmt) {struct fuel}
-  : option (env * list effect) :=
+(* how a run ends: normally, by a panic of a caller-supplied closure, or outside the fragment / out of fuel *)
+Inductive xres :=
+| XOk (en : env) (tr : list effect) (script : list (option bool))
+| XPanic (en : env) (tr : list effect)
+| XStuck.
+
+Fixpoint exec (ft : fntab) (fuel : nat) (en : env) (tr : list effect) (script : list (option bool))
+         (ss : list stmt) {struct fuel} : xres :=
   match fuel with
-  | O => None
+  | O => XStuck
   | S fuel =>
     match ss with
-    | [] => Some (en, tr)
+    | [] => XOk en tr script
     | SLet x e :: r | SSet x e :: r =>
         match eval ft FUEL_SEM en e with
-        | Ret v => exec ft fuel (upd x v en) tr r
-        | _ => None
+        | Ret v => exec ft fuel (upd x v en) tr script r
+        | _ => XStuck
         end
     | SDo f args :: r =>
         match eval_args ft en args with
-        | Some vs => exec ft fuel en (List.app tr [(f, vs)]) r
-        | None => None
+        | Some vs => exec ft fuel en (List.app tr [(f, vs)]) script r
+        | None => XStuck
         end
     | SWhile c body :: r =>
         match eval ft FUEL_SEM en c with
         | Ret (VB true) =>
-            match exec ft fuel en tr body with
-            | Some (en', tr') => exec ft fuel en' tr' (SWhile c body :: r)
-            | None => None
+            match exec ft fuel en tr script body with
+            | XOk en' tr' script' => exec ft fuel en' tr' script' (SWhile c body :: r)
+            | other => other
             end
-        | Ret (VB false) => exec ft fuel en tr r
-        | _ => None
+        | Ret (VB false) => exec ft fuel en tr script r
+        | _ => XStuck
+        end
+    | SIf c th el :: r =>
+        match eval ft FUEL_SEM en c with
+        | Ret (VB b) =>
+            match exec ft fuel en tr script (if b then th else el) with
+            | XOk en' tr' script' => exec ft fuel en' tr' script' r
+            | other => other
+            end
+        | _ => XStuck
+        end
+    | SIfAsk negate f args th el :: r =>
+        match eval_args ft en args with
+        | Some vs =>
+            let tr1 := List.app tr [(f, vs)] in
+            match script with
+            | Some b :: script' =>
+                match exec ft fuel en tr1 script' (if xorb negate b then th else el) with
+                | XOk en' tr' script'' => exec ft fuel en' tr' script'' r
+                | other => other
+                end
+            | None :: _ => XPanic en tr1
+            | [] => XStuck
+            end
+        | None => XStuck
         end
     end
   end.
